@@ -75,7 +75,14 @@ func fdAuditScenario(life string) *vsched.Scenario {
 				// closed through the os.File that owns it (not visible to the syscall shim); a raw close
 				// by netpoll would already have been counted, so a double close shows up as 2
 				vsyscall.ClosedExternally(lfd)
+				// the number is free now: somebody else gets it (the adversary hook only sees closes
+				// that go through the shim), then the owner closes its listener once more - the usual
+				// Shutdown + deferred Close. That second Close must not touch the number again.
+				fd := vsyscall.HOpenAny()
+				d, i, _ := vsyscall.FdIdentity(fd)
+				adv = append(adv, advFd{fd, d, i})
 			}
+			nl.Close()
 		case "conn-close", "conn-detach", "conn-register-fails":
 			a, b := vsyscall.HSocketpair(0)
 			vsyscall.Adopt(a)
